@@ -10,6 +10,8 @@ import (
 	"crypto/tls"
 	"encoding/hex"
 	"fmt"
+	"golang.org/x/net/http2"
+	"golang.org/x/net/http2/hpack"
 	"io"
 	"math/rand"
 	"net"
@@ -17,6 +19,7 @@ import (
 	"strings"
 	"sync"
 	"time"
+	"verif/internal/h2peer"
 
 	"verif/internal/rig"
 	"verif/internal/verdict"
@@ -87,6 +90,17 @@ func extraPhases(run *verdict.Run) {
 		if st == 200 && r.Method != "HEAD" {
 			io.WriteString(w, "body")
 		}
+	})
+	// a deterministic download of n bytes (byte i is 'a'+i%26)
+	mux.HandleFunc("/dl", func(w http.ResponseWriter, r *http.Request) {
+		n := 0
+		fmt.Sscan(r.URL.Query().Get("n"), &n)
+		b := make([]byte, n)
+		for i := range b {
+			b[i] = byte('a' + i%26)
+		}
+		w.Header().Set("Content-Type", "application/octet-stream")
+		w.Write(b)
 	})
 	// a backend response that is cut after the header and part of the body went out
 	mux.HandleFunc("/cut", func(w http.ResponseWriter, r *http.Request) {
@@ -375,6 +389,148 @@ func extraPhases(run *verdict.Run) {
 			}
 			if status == 200 && err == nil {
 				run.Violation("cut-backend-response-presented-as-complete", w, "%s: the backend sent %d of %d bytes (Content-Length announced: %v) and dropped the connection; the client was given a complete 200 response of %d bytes without any error", proto, after, full, cl == 1, len(got))
+			}
+		}(i)
+	}
+	wg.Wait()
+
+	// ---- 1d. raw HTTP/2 clients: a graceful GOAWAY while the last exchange is in flight, and a stream
+	// window that the client resizes twice in the middle of a response
+	rawClient := func() (*h2peer.Peer, net.Conn, error) {
+		tc, _, e := rig.StdDial(px.Addr, &tls.Config{InsecureSkipVerify: true, NextProtos: []string{"h2"}}, nil, nil)
+		if e != nil {
+			return nil, nil, e
+		}
+		return h2peer.New(tc, nil), tc, nil
+	}
+	dlOK := func(b []byte, n int) bool {
+		if len(b) != n {
+			return false
+		}
+		for i := range b {
+			if b[i] != byte('a'+i%26) {
+				return false
+			}
+		}
+		return true
+	}
+	flowBytes := func(p *h2peer.Peer, sid uint32) int64 { // flow-controlled bytes of DATA received on the stream
+		var t int64
+		for _, e := range p.Events() {
+			if e.Is(http2.FrameData) && e.StreamID == sid {
+				t += int64(e.Length)
+			}
+		}
+		return t
+	}
+	const bound = 20 * time.Second
+	for i := 0; i < run.Pick(6, 40); i++ {
+		wg.Add(1)
+		go func(i int) {
+			defer wg.Done()
+			p, tc, err := rawClient()
+			if err != nil {
+				return
+			}
+			defer tc.Close()
+			run.Eval(1)
+			switch i % 3 {
+			case 0: // upload: GOAWAY(NO_ERROR) between two DATA frames of the connection's last request
+				run.Add("raw_goaway_mid_upload", 1)
+				run.Distinct(fmt.Sprintf("goaway-upload-%d", i))
+				b := body(int64(7000+i), 40000+i)
+				p.Preface()
+				p.Request(1, false, hpack.HeaderField{Name: ":method", Value: "POST"}, hpack.HeaderField{Name: ":scheme", Value: "https"}, hpack.HeaderField{Name: ":authority", Value: "front.example"}, hpack.HeaderField{Name: ":path", Value: "/small"})
+				p.Do(func(fr *http2.Framer) error { return fr.WriteData(1, false, b[:16000]) })
+				p.Do(func(fr *http2.Framer) error { return fr.WriteGoAway(0, http2.ErrCodeNo, nil) })
+				p.Do(func(fr *http2.Framer) error { return fr.WriteData(1, false, b[16000:30000]) })
+				p.Do(func(fr *http2.Framer) error { return fr.WriteData(1, true, b[30000:]) })
+				r, ok := p.WaitResponse(1, bound)
+				want := fmt.Sprintf("received=%d sha=%s", len(b), sum(b))
+				if !ok || r.Reset || string(r.Body) != want {
+					run.Violation("exchange-in-flight-at-graceful-goaway-broken", map[string]any{"kind": "upload", "complete": ok, "reset": r.Reset, "status": r.Status, "body": string(r.Body[:min(len(r.Body), 100)])},
+						"the client sent GOAWAY(NO_ERROR) between the DATA frames of its last request (%d bytes): response complete=%v reset=%v body=%q, want %q", len(b), ok, r.Reset, string(r.Body[:min(len(r.Body), 80)]), want[:40])
+				}
+			case 1: // download larger than the stream window: GOAWAY right after the request, WINDOW_UPDATEs follow
+				run.Add("raw_goaway_mid_download", 1)
+				run.Distinct(fmt.Sprintf("goaway-download-%d", i))
+				n := 300000 + 1000*i
+				p.Preface() // client stream window 65535
+				p.Request(1, true, h2peer.GetFields("front.example", fmt.Sprintf("/dl?n=%d", n))...)
+				p.Do(func(fr *http2.Framer) error { return fr.WriteGoAway(0, http2.ErrCodeNo, nil) })
+				var credited int64
+				deadline := time.Now().Add(bound)
+				for {
+					r := p.Response(1)
+					if r.Ended || r.Reset || time.Now().After(deadline) || p.Ended() {
+						break
+					}
+					if got := flowBytes(p, 1); got > credited {
+						inc := uint32(got - credited)
+						credited = got
+						p.Do(func(fr *http2.Framer) error { fr.WriteWindowUpdate(0, inc); return fr.WriteWindowUpdate(1, inc) })
+					} else {
+						time.Sleep(2 * time.Millisecond)
+					}
+				}
+				r := p.Response(1)
+				if !r.Ended || r.Reset || !dlOK(r.Body, n) {
+					run.Violation("exchange-in-flight-at-graceful-goaway-broken", map[string]any{"kind": "download", "ended": r.Ended, "reset": r.Reset, "received": len(r.Body), "want": n},
+						"the client sent GOAWAY(NO_ERROR) right after its last request and kept granting window: the %d-byte response ended=%v reset=%v with %d bytes received", n, r.Ended, r.Reset, len(r.Body))
+				}
+			case 2: // the client's SETTINGS_INITIAL_WINDOW_SIZE changes twice while the response is limited by it
+				run.Add("raw_stream_window_resized_mid_response", 1)
+				run.Distinct(fmt.Sprintf("resize-%d", i))
+				w0, w1, w2 := int64(1000+100*i), int64(200000+i), int64(250000+3*i)
+				n := int(w2) + 120000
+				p.Preface(http2.Setting{ID: http2.SettingInitialWindowSize, Val: uint32(w0)})
+				p.Do(func(fr *http2.Framer) error { return fr.WriteWindowUpdate(0, 8<<20) }) // the connection window is never the limit
+				p.Request(1, true, h2peer.GetFields("front.example", fmt.Sprintf("/dl?n=%d", n))...)
+				// wait until exactly `allow` flow-controlled bytes have arrived; more is a violation, fewer a stall
+				step := func(allow int64, what string) bool {
+					deadline := time.Now().Add(bound)
+					for {
+						got := flowBytes(p, 1)
+						if got > allow {
+							run.Violation("response-data-beyond-stream-window", map[string]any{"step": what, "allowed": allow, "received": got}, "%s: %d flow-controlled bytes received on the stream, the client had allowed %d in total", what, got, allow)
+							return false
+						}
+						if got == allow {
+							// nothing more may follow: fence with a PING round trip
+							p.Fence(bound)
+							if g2 := flowBytes(p, 1); g2 > allow {
+								run.Violation("response-data-beyond-stream-window", map[string]any{"step": what, "allowed": allow, "received": g2}, "%s: %d flow-controlled bytes received on the stream, the client had allowed %d in total", what, g2, allow)
+								return false
+							}
+							return true
+						}
+						if r := p.Response(1); r.Reset || p.Ended() || time.Now().After(deadline) {
+							run.Violation("response-stalled-with-open-stream-window", map[string]any{"step": what, "allowed": allow, "received": got, "reset": r.Reset}, "%s: only %d of the %d bytes the client had allowed arrived within %v (reset=%v, connection ended=%v)", what, got, allow, bound, r.Reset, p.Ended())
+							return false
+						}
+						time.Sleep(2 * time.Millisecond)
+					}
+				}
+				if !step(w0, fmt.Sprintf("initial window %d", w0)) {
+					return
+				}
+				p.Do(func(fr *http2.Framer) error {
+					return fr.WriteSettings(http2.Setting{ID: http2.SettingInitialWindowSize, Val: uint32(w1)})
+				})
+				if !step(w1, fmt.Sprintf("window raised %d -> %d mid-response", w0, w1)) {
+					return
+				}
+				p.Do(func(fr *http2.Framer) error {
+					return fr.WriteSettings(http2.Setting{ID: http2.SettingInitialWindowSize, Val: uint32(w2)})
+				})
+				if !step(w2, fmt.Sprintf("window raised again %d -> %d mid-response", w1, w2)) {
+					return
+				}
+				p.Do(func(fr *http2.Framer) error { return fr.WriteWindowUpdate(1, uint32(n)) })
+				r, ok := p.WaitResponse(1, bound)
+				if !ok || r.Reset || !dlOK(r.Body, n) {
+					run.Violation("response-stalled-with-open-stream-window", map[string]any{"step": "final window update", "received": len(r.Body), "want": n}, "after the final WINDOW_UPDATE the %d-byte response did not complete (%d bytes, reset=%v)", n, len(r.Body), r.Reset)
+				}
 			}
 		}(i)
 	}
